@@ -7,7 +7,7 @@
    gone with all its subscriptions.  Values seen by observers and the order of notifications are tied by correspondence and by
    PropCheck.check_c02 on every reached world (tests).  See DESIGN.md 6/C11. *)
 From KDB Require Import Util GenIdx GenIdxProofs SigDefs SigInv SigTheorems SigEmit SigDisc.
-From KDB Require PropDefs PropFlags PropLink PropLinkTheorems PropLinkMove PropSim PropMove.
+From KDB Require PropDefs PropFlags PropLink PropLinkTheorems PropLinkMove PropSim PropSimLazy PropGrowLazy PropMove PropMoveLazy.
 
 Theorem C11_signal_move_transfers :
   forall pf R w src dst x, lookup (w_sigs w) src = Some x -> src <> dst ->
@@ -120,7 +120,11 @@ Theorem C11_property_move_construction_transfers :
                  | _, _ => False end) /\
       (PropDefs.pr_about dn = PropDefs.pr_about s0 /\ PropDefs.pr_changed dn = PropDefs.pr_changed s0 /\
        PropDefs.pr_destroyed dn = PropDefs.pr_destroyed s0 /\
-       PropDefs.pr_about sn = None /\ PropDefs.pr_changed sn = None /\ PropDefs.pr_destroyed sn = None).
+       PropDefs.pr_about sn = None /\ PropDefs.pr_changed sn = None /\ PropDefs.pr_destroyed sn = None) /\
+      (forall b x x', PropDefs.get_bind w b = Some x -> PropDefs.get_bind w' b = Some x' ->
+         PropDefs.b_target x' = option_map (PropMove.rn src dst) (PropDefs.b_target x) /\
+         PropLink.leaves (PropDefs.b_root x') = map (PropLinkMove.mvl src dst) (PropLink.leaves (PropDefs.b_root x))) /\
+      PropDefs.w_evps w' = PropDefs.w_evps w /\ length (PropDefs.w_binds w') = length (PropDefs.w_binds w).
 Proof. exact PropMove.movector_shape. Qed.
 Print Assumptions C11_property_move_construction_transfers.
 
@@ -143,6 +147,17 @@ Theorem C11_property_move_assignment_keeps_values :
     PropDefs.step1 fn rtl fuel w (PropDefs.PMoveAssign dst src) = (w', None) -> PropSim.SC w' /\ PropSim.COH fn w'.
 Proof. exact PropMove.grow_moveassign. Qed.
 Print Assumptions C11_property_move_assignment_keeps_values.
+
+(* ... and in worlds of EVALUATOR-DRIVEN bindings (coq/PropMoveLazy.v): a move construction keeps the state conditions of the one-pass
+   theorem - so the bindings that read or update the moved property are brought up to date by the next evaluateAll as if nothing
+   had moved (C06_network_with_moves_one_pass) *)
+Theorem C11_property_move_construction_keeps_evaluator_driven_networks :
+  forall fn rtl ev fuel w src dst w',
+    PropSimLazy.LSC ev w -> PropGrowLazy.LSND fn w -> PropGrowLazy.LREG ev w -> PropFlags.NOEMIT w ->
+    PropDefs.step1 fn rtl fuel w (PropDefs.PMoveCtor src dst) = (w', None) ->
+    PropSimLazy.LSC ev w' /\ PropGrowLazy.LSND fn w' /\ PropGrowLazy.LREG ev w'.
+Proof. exact PropMoveLazy.lazy_grow_movector. Qed.
+Print Assumptions C11_property_move_construction_keeps_evaluator_driven_networks.
 
 (* non-vacuity: an input is move-constructed away and then move-assigned over another input of the same binding; legal, invariant
    holds, the binding follows (value 3+3 after the write to the final location), the overwritten input's reader reports
